@@ -92,13 +92,16 @@ LeafVals(kind) ==
 \* because HTTP itself strips leading and trailing blanks of header values)
 ShapeFits(v) == v.cls # "string" \/ ((v.s \in {"pcthex", "space"} => v.n >= 3) /\ (v.s \in {"slash", "uni", "plus"} => v.n >= 1))
 
+\* one unremarkable element value for the container-length rules (3 where the kind has it, else Lo; both booleans)
+ElemPick(leaf) == (IF \E w \in leaf : w.n = 3 /\ w.s = "plain" THEN {w \in leaf : w.n = 3 /\ w.s = "plain"} ELSE {w \in leaf : w.n = Lo /\ w.s = "plain"})
+                  \cup {w \in leaf : w.cls = "bool"}
 \* values an attribute can take: the leaf values, with a container size where the leaf is nested
 ValsOf(a) ==
   LET leaf == {v \in LeafVals(a.kind) : ShapeFits(v)} IN
   IF a.nest \in {"direct", "alias", "nested", "whole"} THEN leaf
   ELSE IF a.nest \in Deep THEN {[v EXCEPT !.cn = c] : v \in leaf, c \in (IF a.nest \in {"nested_mapkey", "mapkey_alias"} THEN {1} ELSE {1, 2})}
   ELSE IF a.rule \in {"cminlen", "cmaxlen"}
-       THEN {[v EXCEPT !.cn = c] : v \in {w \in leaf : w.n = 3 /\ w.s = "plain"} \cup {w \in leaf : w.cls = "bool"}, c \in {0, Lo - 1, Lo, Hi, Hi + 1}}
+       THEN {[v EXCEPT !.cn = c] : v \in ElemPick(leaf), c \in {0, Lo - 1, Lo, Hi, Hi + 1}}
        ELSE {[v EXCEPT !.cn = c] : v \in leaf, c \in (IF a.nest = "mapkey" THEN {1} ELSE {1, 2})}
 
 \* can the caller leave the attribute unset?  (Go: pointer field, nil slice or nil map)
@@ -150,4 +153,7 @@ RuleErr(a) ==
 LeafChecked(a, v) == a.rule \in {"cminlen", "cmaxlen"} \/ a.nest \in {"direct", "alias", "nested", "whole"} \/ v.cn >= 1
 ValidAttr(a, v) == IF v = Absent THEN a.mode # "required" ELSE (LeafChecked(a, v) => RuleOK(a, v))
 ViolationOf(a, v) == IF v = Absent THEN "missing_field" ELSE RuleErr(a)
-=============================================================================
+\* every attribute shape of the envelope has at least one present value (a shape that could only be left unset would
+\* be enumerated, generated, compiled - and never exercised)
+ASSUME NoVacuousShape == \A a \in AttrSpace : PayloadVals(a) \ {Absent} # {}
+=========================================================================
